@@ -91,6 +91,9 @@ class VReactor(SelectReactor):
         # Logical due time: snapped to the grid, so that the SLACK added by clock jumps and the
         # TIE_EPS nudges of earlier calls never accumulate into later due times.
         due = round((self._vnow + delay) / self.GRID) * self.GRID
+        if abs(due - (self._vnow + delay)) > 1e-3:
+            # (not one of the harness's own delays - a library default, say: taken as it is)
+            due = self._vnow + delay
         if self.chooser is not None and self.ties:
             same = [c for c in self.getDelayedCalls() if abs(c.getTime() - due) < TIE_EPS * 100 and c.active()]
             if same:
